@@ -137,9 +137,9 @@ PROPS = {
         "exhaustive_part": "small-scope enumeration of the mlw engine (see rule); the random parts are sampled",
     },
     "C06": {
-        "engine": ["mlw", "sock"],
+        "engine": ["mlw", "sock", "queue"],
         "level_text": "Lean 4 theorems C06.conservation / flush_ok_all_written / drop_all_written / flush_idempotent / emit_ok_len / oversize_written_in_own_emit over the same model: delivered ++ pending = acknowledged lines (as lists: exactly once, in order) for every history and oracle. Line-level statements assume a non-empty terminator.",
-        "level_note": _WRITER_NOTE + "; StatsdClient::flush and QueuingMetricSink::flush are covered by the correspondence (spy cases) as delegations",
+        "level_note": _WRITER_NOTE + "; StatsdClient::flush and QueuingMetricSink::flush are covered by the correspondence as delegations (spy cases; queue-engine cases flush through the wrapper while metrics are still queued)",
         "technique": "Lean 4 proof (refinement + conservation invariant over histories) + model/implementation correspondence",
         "trusted_base": _WRITER_TB,
         "assumptions": [STD_BUFWRITER, ORACLE],
@@ -292,11 +292,11 @@ PROPS = {
 MANIFEST_ENGINES = [
     {"name": "macros", "path": "harness/src/bin/macros.rs", "serves_properties": ["C17", "C20"],
      "kind_free_text": "the seven statsd_*! macros with counting-block arguments, one fresh child process per global-client configuration"},
-    {"name": "sock", "path": "harness/src/bin/sock.rs", "serves_properties": ["C12", "C13", "C14", "C20"],
+    {"name": "sock", "path": "harness/src/bin/sock.rs", "serves_properties": ["C06", "C07", "C12", "C13", "C14", "C20"],
      "kind_free_text": "socket sinks on real loopback UDP / Unix datagram sockets with a reading peer; multi-threaded runs; lock-contention scenario"},
     {"name": "holder", "path": "harness/src/bin/holder.rs", "serves_properties": ["C18"],
      "kind_free_text": "SingletonHolder under a controlled scheduler through the cfg(cadence_verif) shim"},
-    {"name": "queue", "path": "harness/src/bin/queue.rs", "serves_properties": ["C08", "C09", "C10", "C11", "C15", "C16", "C20"],
+    {"name": "queue", "path": "harness/src/bin/queue.rs", "serves_properties": ["C06", "C08", "C09", "C10", "C11", "C14", "C15", "C16", "C20"],
      "kind_free_text": "drives QueuingMetricSink / its builder with a gated scripted wrapped sink recording thread id, call order, handler calls and its own Drop; plus free-running multi-producer stress"},
     {"name": "fmt", "path": "harness/src/bin/fmt.rs", "serves_properties": ["C01", "C02", "C03", "C04", "C20"],
      "kind_free_text": "drives StatsdClient (24 entry points x 3 call forms x builder options), the standalone constructors, a scripted MetricSink and a recording error handler"},
